@@ -165,6 +165,23 @@ class C08:
                 vt2 = mg.magic_int2tuple(magic)
                 opc = x.disasm.get_opcode(version, is_pypy)
                 assert opc is not None and hasattr(opc, "opname")
+                # ... a table that the disassembler can actually use on a code object of that version
+                vt3 = tuple(version[:3]) if len(version) >= 3 else tuple(version[:2]) + (0,)
+                rv = opc.opmap.get("RETURN_VALUE", 83)
+                one = bytes([rv, 0]) if vt3 >= (3, 6) else bytes([rv])
+                kw = dict(co_argcount=0, co_nlocals=0, co_stacksize=1, co_flags=0, co_code=one, co_consts=(None,), co_names=(),
+                          co_varnames=(), co_filename="f.py", co_name="n", co_firstlineno=1, co_lnotab=b"", co_freevars=(),
+                          co_cellvars=(), version_triple=tuple(version))
+                if vt3 >= (3, 0):
+                    kw["co_kwonlyargcount"] = 0
+                if vt3 >= (3, 8):
+                    kw["co_posonlyargcount"] = 0
+                if vt3 >= (3, 11):
+                    kw["co_qualname"] = "n"
+                    kw["co_exceptiontable"] = b""
+                co_min = x.codetype.to_portable(**kw)
+                list(x.bytecode.Bytecode(co_min, opc))
+                x.bytecode.Bytecode(co_min, opc).dis()
             except Exception as e:
                 res.fail("C08|accepted-magic-no-opcode-table|%d" % magic,
                          "magic %d (%s) loads, but get_opcode(%s, %s) fails: %s: %s" % (
